@@ -131,7 +131,7 @@ type RWMutex struct {
 //go:norace
 func (m *RWMutex) Lock() {
 	if t := sched.Cur(); t != nil {
-		t.Lock(&m.st, "RWMutex.Lock")
+		t.WLock(&m.st, "RWMutex.Lock")
 		m.mu.Lock()
 		return
 	}
